@@ -199,7 +199,7 @@ V("Triangle.contains: only the query point is raw", "C03", SHAPES, "np.broadcast
 V("segment membership: interval test on a linear quantity", "C03", SHAPES, "        x = z_r * w_r + z_i * w_i\n", "        x = z_r + z_i\n", "E5.order", "SegmentTensor.contains")
 V("_point_dist: one bracket dropped from the denominator", "C03", OPS, "        return 4 * np.abs(np.sqrt(pqi * pqj) / (pij * qij))", "        return 4 * np.abs(np.sqrt(pqi * pqj) / pij)", "E5.ret", "_point_dist")
 V("Simplex.volume without normalisation", "C03", SHAPES, "        points = self._normalize_array(points)\n        n, k = points.shape", "        n, k = points.shape", "E5.ret", "Simplex.volume")
-V("Sphere.radius without the division by the leading entry", "C03", CURVE, "        c = self.array[:-1, -1] / self.array[0, 0]\n        return np.sqrt(c.dot(c) - self.array[-1, -1] / self.array[0, 0])", "        c = self.array[:-1, -1]\n        return np.sqrt(c.dot(c) - self.array[-1, -1])", "missed")
+V("Sphere.radius without the division by the leading entry", "C03", CURVE, "        c = self.array[:-1, -1] / self.array[0, 0]\n        return np.sqrt(c.dot(c) - self.array[-1, -1] / self.array[0, 0])", "        c = self.array[:-1, -1]\n        return np.sqrt(c.dot(c) - self.array[-1, -1])", "E5.ret", "Sphere.radius")
 V("isinf compares the raw last coordinate with 1", "C03", POINT, "        return np.isclose(self.array[..., -1], 0, atol=EQ_TOL_ABS)\n\n    @property\n    def isreal", "        return ~np.isclose(self.array[..., -1], 1, atol=EQ_TOL_ABS)\n\n    @property\n    def isreal", "E5.eq", "PointTensor.isinf")
 V("projective == replaced by coordinate equality", "C03", BASE, "            is_multi = is_multiple(self.array, other.array, axis=axes, rtol=EQ_TOL_REL, atol=EQ_TOL_ABS)\n            return bool(np.all(is_multi))", "            return bool(np.allclose(self.array, other.array, rtol=EQ_TOL_REL, atol=EQ_TOL_ABS))", "E5.eqdunder", "Point")
 V("twin: manual normalisation", "C03", SHAPES, "np.broadcast_arrays(*self.normalized_array, other.normalized_array)", "np.broadcast_arrays(*self._normalize_array(self.array), other._normalize_array(other.array))", "silent")
@@ -444,3 +444,21 @@ V("twin: Circle.area with the factors reordered", "C13", CURVE, "        return 
 V("twin: Sphere.volume with the constant inlined", "C13", CURVE, "        return self._alpha(n) * self.radius**n", "        return self.radius**n * math.pi ** (n / 2) / math.gamma(n / 2 + 1)", "silent")
 V("twin: Sphere.area in the form 2 pi^(n/2) / Gamma(n/2) r^(n-1)", "C13", CURVE, "        return n * self._alpha(n) * self.radius ** (n - 1)",
   "        return 2 * math.pi ** (n / 2) / math.gamma(n / 2) * self.radius ** (n - 1)", "silent")
+
+V("inv: multiply by np.reciprocal of the determinant (integer truncation)", "C20", MATH, "        return adjugate(A) / d[..., None, None]", "        return adjugate(A) * np.reciprocal(d)[..., None, None]", "E12.inv", "inv")
+V("twin: inv as a product with the true reciprocal", "C20", MATH, "        return adjugate(A) / d[..., None, None]", "        return adjugate(A) * (1 / d)[..., None, None]", "silent")
+V("triangle: orientation by np.sign of the sum, zero for points at infinity", "C16", SHAPES,
+  "        ind = area < 0\n        result[ind] &= (lambda1[ind] <= 0) & (lambda2[ind] <= 0) & (lambda3[ind] <= 0)\n        result[~ind] &= (lambda1[~ind] >= 0) & (lambda2[~ind] >= 0) & (lambda3[~ind] >= 0)\n\n        return result",
+  "        orientation = np.sign(area)\n        return result & (orientation * lambda1 >= 0) & (orientation * lambda2 >= 0) & (orientation * lambda3 >= 0)", "E11.T", "Triangle.contains")
+V("twin: orientation by np.sign with the degenerate sum excluded", "C16", SHAPES,
+  "        ind = area < 0\n        result[ind] &= (lambda1[ind] <= 0) & (lambda2[ind] <= 0) & (lambda3[ind] <= 0)\n        result[~ind] &= (lambda1[~ind] >= 0) & (lambda2[~ind] >= 0) & (lambda3[~ind] >= 0)\n\n        return result",
+  "        orientation = np.sign(area)\n        return result & (orientation != 0) & (orientation * lambda1 >= 0) & (orientation * lambda2 >= 0) & (orientation * lambda3 >= 0)", "silent")
+
+
+# ------------------------------------------------------------------------------------------------ definite inhomogeneous scalars (found by seeding, R6_C13)
+RAD_OLD = "        c = self.array[:-1, -1] / self.array[0, 0]\n        return np.sqrt(c.dot(c) - self.array[-1, -1] / self.array[0, 0])"
+for _p in ("C13", "C03"):
+    V(f"Sphere.radius from the raw last column (degree 2 minus degree 0) ({_p})", _p, CURVE, RAD_OLD,
+      "        c = self.array[:-1, -1]\n        return np.sqrt(c.dot(c) - self.array[-1, -1] / self.array[0, 0])", "E5.ret", "Sphere")
+    V(f"twin: Sphere.radius with the quotient taken after the subtraction ({_p})", _p, CURVE, RAD_OLD,
+      "        c = self.array[:-1, -1]\n        k = self.array[0, 0]\n        return np.sqrt((c.dot(c) - self.array[-1, -1] * k) / k**2)", "silent")
